@@ -689,11 +689,23 @@ package fsutil
 //@   ensures atmost: cnt(WalkFn) <= old(cnt(WalkFn)) + 1
 //@   ensures prefixed: cnt(WalkFn) > old(cnt(WalkFn)) ==> arg(WalkFn, 0) == filepath.Join(d.Stat.Path, p) && isptr(arg(WalkFn, 1), DirEntryInfo) && asptr(arg(WalkFn, 1), DirEntryInfo).Stat != nil
 
-// sub-roots are sorted by name with a comparison that reads the slice being
-// sorted; names with a separator and duplicate names are rejected
+// Go's string comparison is the bytewise lexicographic order: a strict total order
+//@ axiom str_trans: forall a string, b string, c string :: {a < b, b < c} a < b && b < c ==> a < c
+//@ axiom str_total: forall a string, b string :: {a < b} a < b || a == b || b < a
+
+// sub-roots are sorted by name (names carry no separator, so bytewise order is the path order)
+// with a comparison that reads the slice being sorted, and it is that sorted slice the composite
+// view walks; names with a separator and duplicate names are rejected
+//@ func SubDirFS$1
+//@   property C09
+//@   safety -index
+//@   ensures by_name: result == (dirs[i].Stat.Path < dirs[j].Stat.Path)
 //@ func SubDirFS
 //@   property C09
+//@   use str_trans str_total
 //@   modifies dirs[*]
+//@   loop 0 invariant kept: forall a int, b int :: {dirs[a], dirs[b]} 0 <= a && a < b && b < len(dirs) ==> !(dirs[b].Stat.Path < dirs[a].Stat.Path)
+//@   ensures walks_sorted: result1 == nil ==> isptr(result0, subDirFS) && asptr(result0, subDirFS) != nil && len(asptr(result0, subDirFS).dirs) == len(dirs) && (forall a int, b int :: 0 <= a && a < b && b < len(dirs) ==> !(asptr(result0, subDirFS).dirs[b].Stat.Path < asptr(result0, subDirFS).dirs[a].Stat.Path))
 
 // ---------------------------------------------------------------------------
 // filter.go, hardlinks.go (C11)
